@@ -445,7 +445,7 @@ pub fn run_one(seed: u64, rt: Option<&tokio::runtime::Runtime>) -> Outcome {
             let mut o = rt.block_on(body(seed, trace, true));
             crate::th::end();
             o.desc.push(format!("intensity={intensity}"));
-            crate::th::wait_until(10_000, || vt::global_leaks().is_empty());
+            let _ = crate::th::settle_leaks();
             o
         }
     };
